@@ -15,6 +15,7 @@ Norm(t) == [k |-> t.k, id |-> t.id,
 
 Verdict(x) ==
   IF x.kind = "visit" THEN <<"visit", Judge(x.t, x.got)>>
+  ELSE IF x.kind = "params" THEN <<"params", ParamJudge(x.t, x.got), ParamOrder(x.t)>>
   ELSE IF x.kind = "replace2"
   THEN <<"replace2", IF Norm(x.after) = Norm(ReplaceMany(x.t, x.repl)) THEN "ok" ELSE "replace-scope">>
   ELSE <<"replace", IF Norm(x.after) = Norm(Replace(x.t, x.target)) THEN "ok"
